@@ -124,10 +124,10 @@ func TestVerifC20Cluster(t *testing.T) {
 	type ack struct{ tag string }
 	var acked []ack
 	var ops, impl []string
-	rounds := vfScale(1, 6)
+	rounds := vfScale(1, 12)
 	seq := 0
 	for round := 0; round < rounds; round++ {
-		if round > 0 {
+		if round > 0 && round%2 == 0 {
 			// move leadership, then carry on with whoever leads now
 			old := leader
 			if err := old.Stepdown(true); err != nil {
@@ -143,13 +143,21 @@ func TestVerifC20Cluster(t *testing.T) {
 			}
 			leader = nl
 			rep.Count("stepdowns")
+		} else if round > 0 {
+			// move leadership WHILE the requests of this round are being sent
+			old := leader
+			go func() {
+				time.Sleep(150 * time.Millisecond)
+				old.Stepdown(false)
+			}()
+			rep.Count("stepdowns-during-requests")
 		}
 		for _, node := range cluster {
 			for _, kind := range []string{"execute", "request-write", "query-strong", "query-weak", "request-strong-read"} {
 				for _, redirect := range []bool{false, true} {
-					ldr, err := cluster.Leader()
-					if err != nil {
-						t.Fatalf("no leader: %v", err)
+					var ldr *Node
+					if !trueOrTimeout(func() bool { l, err := cluster.Leader(); ldr = l; return err == nil }, 30*time.Second) {
+						t.Fatalf("cluster has no leader")
 					}
 					leader = ldr
 					isFollower := node.ID != leader.ID
@@ -175,6 +183,16 @@ func TestVerifC20Cluster(t *testing.T) {
 					r, err := c20Do(method, "http://"+node.APIAddr+path+"?"+query, body)
 					if err != nil {
 						rep.Note("request to %s failed: %v", node.ID, err)
+						continue
+					}
+					// was leadership stable across the request? if not, only exactly-once is judged (at the end)
+					if l2, err := cluster.Leader(); err != nil || l2.ID != leader.ID {
+						rep.Count("requests-during-leadership-change")
+						if r.status == 200 && (kind == "execute" || kind == "request-write") {
+							if p, ok := c20Parse(r.body); ok && len(p.Results) == 1 && p.Results[0].Error == "" {
+								acked = append(acked, ack{tag})
+							}
+						}
 						continue
 					}
 					role := "leader"
